@@ -230,10 +230,10 @@ class sptensor:
         assert callable(function_handle), "function_handle must be callable"
 
         shape = parse_shape(shape)
-        if (nonzeros < 0) or (nonzeros >= prod(shape)):
+        if (nonzeros < 0) or (nonzeros > prod(shape)):
             assert False, (
                 "Requested number of nonzeros must be positive "
-                "and less than the total size"
+                "and at most the total size"
             )
         elif nonzeros < 1:
             nonzeros = int(np.ceil(prod(shape) * nonzeros))
